@@ -47,7 +47,7 @@ CHECKS["C18"] = dict(
 
 CHECKS["C19"] = dict(
    technique="TLA+ operators Framing.tla evaluated exhaustively by TLC over a small alphabet; TLC trace validation recomputing the framing of recorded real writer/reader runs byte for byte",
-   text="Framing.tla defines Encode/Decode (both format versions), the XOR-bag checksum and the KV layout as pure operators; TLC evaluates round trip, truncation detection, checksum equality and KV inverses for all streams of the small instance (bytes 0/1/255 that look like prefixes and terminators). Real FileWriter/FileReader runs (items 1..70000 bytes, adversarial contents, tiny disk blocks) are recorded with the file bytes and validated by TLC: the file must equal Encode(items), the decoded items the written ones, end-of-stream reported, reader checksum = writer checksum; the v0 reader is fed spec-conformant v0 files. For a pure codec the specification serves as an executable oracle; exhaustive small scope + byte-exact validation of recorded runs is the strongest this technique offers here.",
+   text="Framing.tla defines Encode/Decode (both format versions), the XOR-bag checksum and the KV layout as pure operators; TLC evaluates round trip, truncation detection, checksum equality and KV inverses for all streams of the small instance (bytes 0/1/255 that look like prefixes and terminators). Real FileWriter/FileReader runs (items 1..70000 bytes, adversarial contents, tiny disk blocks) are recorded with the file bytes and validated by TLC: the file must equal Encode(items), the decoded items the written ones, end-of-stream reported, reader checksum = writer checksum; the v0 reader is fed spec-conformant v0 files. For a pure codec the specification serves as an executable oracle; exhaustive small scope + byte-exact validation of recorded runs is the strongest this technique offers here. Streams with one item of 16 MiB or more and KV pairs with keys of 32767/32768/65535 bytes are judged by their headers, sizes and round trip.",
    design_ref="DESIGN.md 4.7, 6 (C19), 9",
    note="Trusted: TLC, Json module, the verif accessors VerifNewFileWriter/Reader/VerifNewItem. CRC32 uninterpreted (checksums compared implementation-to-implementation). Bounds: exhaustive <=3 items of <=2-3 bytes over {0,1,255}; traces: lengths 1..70000, <=5 items per stream.")
 
@@ -55,11 +55,11 @@ BK_NOTE = ("Trusted: TLC, strace (-f -y -xx), RLIMIT_FSIZE semantics, the harnes
            "shards (16 here); model instances have 2-3 shards with <= 2 items. Crash model: process death between syscalls; no torn writes or power loss.")
 CHECKS["C11"] = dict(
    technique="TLA+ model Backup.tla (C11_DamageDetected, C11_MultiShard over the Load operator) exhausted by TLC; exhaustive single-fault enumeration on real backup directories with every outcome judged by TLC (Trace_Backup.tla)",
-   text="Backup.tla models LoadFromDisk as an operator over disk images and TLC checks that every single fault of every completed backup of the instance yields error or exact. On the real code every byte of every file of small stored databases is altered (3 patterns), every file truncated at every length and removed, plus multi-shard combinations, for several restore concurrencies, delta on/off, both comparators/memory modes; LoadFromDisk runs under a watchdog with panic capture and each outcome is validated by TLC against the stored snapshot's view. Fault enumeration is complete per database (thorough) which is what 'every single-fault damage' asks for; the model supplies the allowed outcome set and the classes.",
+   text="Backup.tla models LoadFromDisk as an operator over disk images and TLC checks that every single fault of every completed backup of the instance yields error or exact. On the real code every byte of every file of small stored databases is altered (3 patterns), every file truncated at every length and removed, plus multi-shard combinations, for several restore concurrencies, delta on/off, both comparators/memory modes; LoadFromDisk runs under a watchdog with panic capture and each outcome is validated by TLC against the stored snapshot's view. Fault enumeration is complete per database (thorough) which is what 'every single-fault damage' asks for; the model supplies the allowed outcome set and the classes. Every digit of a manifest is also altered to every other digit (a shard name turning into another listed name); backups written by more writers than CPUs, loads with DiskBlockSize 16/64; the allocator is checked after Close of every instance that loaded or failed to load an image.",
    design_ref="DESIGN.md 4.6, 6 (C11)", note=BK_NOTE)
 CHECKS["C12"] = dict(
    technique="TLA+ model Backup.tla (C12_NoSilentPartial, C12_CrashSafe with Crash/DiskFull between any two file-system mutations) exhausted by TLC; real StoreToDisk under RLIMIT_FSIZE sweep and strace; every syscall prefix materialised and loaded; outcomes judged by TLC",
-   text="TLC explores every interleaving of buffered writes, flushes, crash and disk-full in the model of StoreToDisk's mutation order and shows success implies an exactly loadable backup and every crash image loads as error or exact. The real StoreToDisk runs in a child under every file-size limit from 0 to the largest file (writes fail with EFBIG) and under strace; the recorded mutation sequence is compared with the model's order and every prefix is rebuilt as a directory and given to the real LoadFromDisk; TLC judges ret=ok => exact and crash-prefix outcomes in {error, exact}.",
+   text="TLC explores every interleaving of buffered writes, flushes, crash and disk-full in the model of StoreToDisk's mutation order and shows success implies an exactly loadable backup and every crash image loads as error or exact. The real StoreToDisk runs in a child under every file-size limit from 0 to the largest file (writes fail with EFBIG) and under strace; the recorded mutation sequence is compared with the model's order and every prefix is rebuilt as a directory and given to the real LoadFromDisk; TLC judges ret=ok => exact and crash-prefix outcomes in {error, exact}. One delta configuration is written by more writers than CPUs, so that the delta manifests are the largest manifests and a size limit can fail them alone.",
    design_ref="DESIGN.md 4.6, 6 (C12)", note=BK_NOTE)
 
 AB_NOTE = ("Trusted: TLC, the gate scheduler (goroutines parked at the verif yield points of access_barrier.go, one released at a time => sequentially consistent executions; "
@@ -71,12 +71,12 @@ CHECKS["C16"] = dict(
    design_ref="DESIGN.md 4.2, 6 (C16/C17)", note=AB_NOTE)
 CHECKS["C17"] = dict(
    technique="TLA+ model AccessBarrier.tla (NothingPending at quiescence) exhausted by TLC; gate-scheduled and free-running executions of the real barrier validated by TLC (BarrierAPI.tla: quiescent => destructor calls = flush calls)",
-   text="Liveness at quiescence is a state invariant of the model (Quiescent => every flush destructed) that TLC checks over all interleavings, in particular two sessions terminating at nearly the same time; on the real barrier the harness emits a Quiesce event whenever every process is idle and no token is held, under TLC-simulated and random gate schedules and at the end of free-running runs, and TLC requires destructor calls = FlushSession calls there.",
+   text="Liveness at quiescence is a state invariant of the model (Quiescent => every flush destructed) that TLC checks over all interleavings, in particular two sessions terminating at nearly the same time; on the real barrier the harness emits a Quiesce event whenever every process is idle and no token is held, under TLC-simulated and random gate schedules and at the end of free-running runs, and TLC requires destructor calls = FlushSession calls there. LiveSpec (fairness of in-call steps and releases) satisfies EveryFlushDestructed and EveryCallReturns (TLC liveness checking).",
    design_ref="DESIGN.md 4.2, 6 (C16/C17)", note=AB_NOTE)
 
 CHECKS["C08"] = dict(
    technique="TLA+ model SnapRef.tla (Open/Close/GC at the grain of their atomic steps) exhausted by TLC; inductive invariant of the count (RefCountInd.tla) discharged by Apalache for unbounded counts and calls; TLC-simulated behaviours replayed as gate schedules on the real Snapshot.Open/Close/NewIterator/GC; TLC trace validation at API grain (SnapAPI.tla) and step conformance (Trace_SnapRef.tla)",
-   text="TLC enumerates every interleaving of Open's load/compare-and-swap against Close's decrement, list move, try-lock and per-snapshot collection steps for 2-3 processes and 1-3 snapshots: no handle on a retired snapshot, retired once, released in order, collector not stuck after a forced pass at quiescence. On the real code the gate scheduler parks goroutines at the yield points inside Open/Close/GC and enforces TLC-simulated and random schedules; free-running goroutines add unsteered executions; TLC judges Open/NewIterator results against retirement, retire-once, collector order and lastGCSn/lists at quiescence, and checks the real reference counts and lists equal the model's after every step.",
+   text="TLC enumerates every interleaving of Open's load/compare-and-swap against Close's decrement, list move, try-lock and per-snapshot collection steps for 2-3 processes and 1-3 snapshots: no handle on a retired snapshot, retired once, released in order, collector not stuck after a forced pass at quiescence. On the real code the gate scheduler parks goroutines at the yield points inside Open/Close/GC and enforces TLC-simulated and random schedules; free-running goroutines add unsteered executions; TLC judges Open/NewIterator results against retirement, retire-once, collector order and lastGCSn/lists at quiescence, and checks the real reference counts and lists equal the model's after every step. Half of the free-running scenarios end with five goroutines, released together, trying Open/NewIterator 20000 times each on the released snapshots (windows without a yield point).",
    design_ref="DESIGN.md 4.3, 6 (C08)",
    note="Trusted: TLC, the gate scheduler (sequentially consistent interleavings at yield-point grain), harness logging. Bounds: exhaustive 2 procs x 2-3 snapshots, 3 procs x 1-2 snapshots; scenarios up to 4 goroutines, 3 snapshots. The sequential part (Open after last Close fails, NewIterator nil) is also checked in every NitroMVCC trace.")
 
@@ -85,11 +85,11 @@ SL_NOTE = ("Trusted: TLC, the gate scheduler (sequentially consistent interleavi
            "amd64 node layout only; weak-memory effects out of scope.")
 CHECKS["C13"] = dict(
    technique="TLA+ model Skiplist.tla (one action per shared-memory access) exhausted by TLC; TLC-simulated behaviours replayed as gate schedules on the real skiplist; TLC searches a linearization of every recorded call/return history (SetLin.tla); step conformance with the model's invariants evaluated on the real execution (Trace_Skiplist.tla)",
-   text="TLC enumerates all interleavings of the atomic steps of findPath / Insert4 / softDelete / deleteNode for the bounded instance and checks NoDupKeys, exactly-one successful DeleteNode per node, and that every failed operation is justified by the key's presence/absence during its interval (fixed linearization points: publish CAS, level-0 mark CAS). Real executions under TLC-simulated and random gate schedules, and free-running goroutines, are recorded; SetLin.tla lets TLC place the linearization points of every history (a violation = no placement explains the results and the final scan); Trace_Skiplist.tla replays each step, requires every real (successor, mark) word to equal the model's, and evaluates the model's properties on that state.",
+   text="TLC enumerates all interleavings of the atomic steps of findPath / Insert4 / softDelete / deleteNode for the bounded instance and checks NoDupKeys, exactly-one successful DeleteNode per node, and that every failed operation is justified by the key's presence/absence during its interval (fixed linearization points: publish CAS, level-0 mark CAS). Real executions under TLC-simulated and random gate schedules, and free-running goroutines, are recorded; SetLin.tla lets TLC place the linearization points of every history (a violation = no placement explains the results and the final scan); Trace_Skiplist.tla replays each step, requires every real (successor, mark) word to equal the model's, and evaluates the model's properties on that state. LiveSpec (weak fairness of in-call steps) satisfies EveryCallReturns. The gate schedules in bursts; contended-delete pattern scenarios and free-running scenarios with hundreds of keys and organically growing towers complement the small ones; a panic of the skiplist becomes a Panic event and a verdict.",
    design_ref="DESIGN.md 4.1, 6 (C13-C15)", note=SL_NOTE)
 CHECKS["C14"] = dict(
    technique="TLA+ model Skiplist.tla (QStruct, NoMarkedLinked at quiescence) exhausted by TLC; gate-scheduled and free-running executions of the real skiplist, builder and restore; per-level walk and statistics at quiescence judged by TLC (SlQuiesce.tla, Trace_Builder.tla)",
-   text="QStruct is a quiescence invariant of Skiplist.tla checked over all interleavings of the bounded instance (every level a strictly increasing chain of live nodes ending at the tail, sub-sequence of the level below, every live node linked up to its height). On the real code, after every gate-scheduled / free-running scenario the harness walks every level through the verif accessors (including marked nodes) and reads GetStats; TLC judges order, sub-sequence, tail, no marked node linked, node count, per-level distribution, soft deletes, memory and the iterator's view. Structures produced by the builder are judged by the C18 check, restored ones by the C05 check, with the same walk.",
+   text="QStruct is a quiescence invariant of Skiplist.tla checked over all interleavings of the bounded instance (every level a strictly increasing chain of live nodes ending at the tail, sub-sequence of the level below, every live node linked up to its height). On the real code, after every gate-scheduled / free-running scenario the harness walks every level through the verif accessors (including marked nodes) and reads GetStats; TLC judges order, sub-sequence, tail, no marked node linked, node count, per-level distribution, soft deletes, memory and the iterator's view. Structures produced by the builder are judged by the C18 check, restored ones by the C05 check, with the same walk. Free-running scenarios with concurrent iterators (a reader winning the unlink) and with hundreds of keys / growing towers are walked too.",
    design_ref="DESIGN.md 4.1, 6 (C13-C15)", note=SL_NOTE)
 
 NW_NOTE = ("Trusted: TLC; the harness allocators (registry with poison, guard pages via mmap/mprotect in a child process) and the parent's attribution of a fatal fault by address; "
@@ -99,15 +99,15 @@ NW_NOTE = ("Trusted: TLC; the harness allocators (registry with poison, guard pa
            "every model action is one event and Trace_NitroWriters.tla compares every node's real fields, garbage lists and allocator verdicts after every step.")
 CHECKS["C03"] = dict(
    technique="TLA+ model NitroWriters.tla (writer paths at atomic-step grain) exhausted by TLC and replayed step by step on the real writers under a gate scheduler (Trace_NitroWriters.tla); TLC searches a linearization of every recorded concurrent history incl. the next snapshot's content and Count (SetLin.tla)",
-   text="NitroWriters.tla splits Put/Delete2 into lookup-under-token, bornSn read, same-epoch mark / deadSn CAS, list append and session flush and TLC checks one winner per delete and at most one live version for every interleaving of 2-3 writers. Real writers (2-6 goroutines, shared keys, same- and cross-epoch deletes, with concurrent readers) run free between quiescent NewSnapshots; SetLin.tla makes TLC place a linearization point between each Call and Ret such that all results, the snapshot scan, Count(), ItemsCount, every concurrent reader's scan and the final physical chain are explained; no placement = violation.",
+   text="NitroWriters.tla splits Put/Delete2 into lookup-under-token, bornSn read, same-epoch mark / deadSn CAS, list append and session flush and TLC checks one winner per delete and at most one live version for every interleaving of 2-3 writers. Real writers (2-6 goroutines, shared keys, same- and cross-epoch deletes, with concurrent readers) run free between quiescent NewSnapshots; SetLin.tla makes TLC place a linearization point between each Call and Ret such that all results, the snapshot scan, Count(), ItemsCount, every concurrent reader's scan and the final physical chain are explained; no placement = violation. Start-gun scenarios release all writers on the same key at the same instant (spin barrier); the gate scheduler runs in bursts (stickiness drawn from the seed).",
    design_ref="DESIGN.md 4.5, 6 (C03)", note=NW_NOTE)
 CHECKS["C04"] = dict(
    technique="TLA+ model NitroWriters.tla (NoUAF, NoDoubleFree, FreedImpliesUnlinked over writers + barrier + GC worker + free worker) exhausted by TLC; real workloads under a guard-page allocator (child process) and a registry allocator with poison; allocator events and attributed faults judged by TLC (MemAPI.tla)",
-   text="The model marks every step that dereferences a node and TLC checks that no such step touches a freed node, no node is freed twice and nothing linked is freed, for all interleavings of contending writers with the reclamation pipeline, and TLC-simulated behaviours of that model are replayed on the real writers / barrier / free worker under the gate (Trace_NitroWriters.tla: a session destructed while a writer that entered before its flush is inside, a node freed while held, allocator errors are verdicts); Skiplist.tla's NoMarkedLinked and AccessBarrier.tla's C16 invariants (checked by C13/C16) supply the layers below. On the real code every block lives on its own guard-protected pages that become inaccessible on free, so any read or write after free faults immediately and is attributed by address; double and invalid frees are recorded by the allocator; the harness dereferences every item handed out by iterators/visitors; TLC validates the event stream.",
+   text="The model marks every step that dereferences a node and TLC checks that no such step touches a freed node, no node is freed twice and nothing linked is freed, for all interleavings of contending writers with the reclamation pipeline, and TLC-simulated behaviours of that model are replayed on the real writers / barrier / free worker under the gate (Trace_NitroWriters.tla: a session destructed while a writer that entered before its flush is inside, a node freed while held, allocator errors are verdicts); Skiplist.tla's NoMarkedLinked and AccessBarrier.tla's C16 invariants (checked by C13/C16) supply the layers below. On the real code every block lives on its own guard-protected pages that become inaccessible on free, so any read or write after free faults immediately and is attributed by address; double and invalid frees are recorded by the allocator; the harness dereferences every item handed out by iterators/visitors; TLC validates the event stream. Churn scenarios rotate over instance kinds (built by Put / restored by LoadFromDisk with writers created before the restore), snapshot policies (pinned first / rolling latest, so that collection and free workers run during scans) and backup modes (plain / delta with callbacks that check the item handed to them against the allocator's registry).",
    design_ref="DESIGN.md 4.5, 5.2, 6 (C04)", note=NW_NOTE)
 CHECKS["C07"] = dict(
    technique="TLA+ model NitroWriters.tla (AllFreedOnceAtClose) exhausted by TLC and replayed on the real writers under the gate (Trace_NitroWriters.tla); allocator events of real histories (contended writers, rejected Puts, pinned snapshots, backups, LoadFromDisk-populated instances) judged by TLC (MemAPI.tla)",
-   text="TLC checks that after the snapshot is closed, the workers drained and Close ran, every node allocated in any interleaving has been freed exactly once. Real instances run with a registry allocator whose every malloc/free is an event; at Close TLC requires allocated = freed, no double free and no foreign pointer, for contended-writer scenarios and for store -> restore -> operate -> Close sequences (delta on/off).",
+   text="TLC checks that after the snapshot is closed, the workers drained and Close ran, every node allocated in any interleaving has been freed exactly once. Real instances run with a registry allocator whose every malloc/free is an event; at Close TLC requires allocated = freed, no double free and no foreign pointer, for contended-writer scenarios and for store -> restore -> operate -> Close sequences (delta on/off). Backups of those sequences delete, churn snapshots and collect inside the backup callback (duplicates across shard and delta files); LoadFromDisk of damaged backups followed by Close must leave the allocator empty whether the restore succeeded or failed.",
    design_ref="DESIGN.md 4.5, 6 (C07)", note=NW_NOTE)
 
 CHECKS["C05"] = dict(
